@@ -50,8 +50,10 @@ func main() {
 	case "C03":
 		rep = suiteChunk("C03", "", *tier, *seed, *model)
 		rep.Merge(suiteSenAgree(*tier, *seed))
+		rep.Merge(suiteChannel(*tier, *seed))
 	case "C03s":
 		rep = suiteSenAgree(*tier, *seed)
+		rep.Merge(suiteChannel(*tier, *seed))
 	case "C02":
 		rep = suiteParse("C02", *tier, *seed, *model, map[string]bool{"value": true})
 	case "C06":
